@@ -1015,6 +1015,32 @@ def judge_c19_raw(ctx, cfg, docs):
     ctx.count('raw-model-lines', len(lines))
     return v
 
+def judge_c19_driven(ctx, cfg, docs):
+    """ONE Deserializer, several Box<RawValue> reads in a row with failures swallowed (manual driving / a lenient wrapper): every source must give the
+    same sequence of captured spans — a value read after a failed one holds exactly its own source text (nothing of the failed value, nothing of what
+    was consumed in between).  Evaluated on the implementation: slice is the reference, &str and readers (chunk sizes 1 and 3) must equal it."""
+    L = ctx.letters(cfg)
+    rng = ctx.rng
+    seqs = [b'nulx 42 ', b'[1, {"a": fals! [true, "x"] ', b'1 2 3', b'"a" tru 7 [1]', b'{"k":1} } [2]', b'[1,] "s" 5']
+    vals = [d.strip(b' \n\t\r') for d in docs if gen.is_utf8(d) and 0 < len(d) < 60]
+    junk = [b'nulx', b'tru', b'fals!', b'}', b'[1,]', b'"a\\q"', b'01', b'-', b'{"a" 1}', b'@']
+    for _ in range(600 if ctx.tier == 'quick' else 6000):
+        parts = [rng.choice(junk) if rng.random() < 0.4 else (rng.choice(vals) if vals else b'1') for _ in range(rng.choice([2, 3, 4]))]
+        seqs.append(b' '.join(parts) + rng.choice([b'', b' ']))
+    v = []
+    base = ctx.impl(cfg, ['rseq %s b 5 %s' % (L, hx(d)) for d in seqs], 'sjh_raw')
+    for src in ('s', 'r1', 'r3'):
+        outs = ctx.impl(cfg, ['rseq %s %s 5 %s' % (L, src, hx(d)) for d in seqs], 'sjh_raw')
+        for d, a, b in zip(seqs, base, outs):
+            if b == 'SKIP' or a == 'SKIP':
+                continue
+            if a != b:
+                v.append({'what': 'raw-sequence-differs-between-sources', 'cfg': cfg, 'input': hx(d), 'expected': 'slice: ' + a[:300], 'actual': 'source %s: %s' % (src, b[:300]), 'shrinkable': False})
+            elif not ctx.quiet and 'ok:' in a:
+                ctx.distinct_nontrivial += 1
+    ctx.count('raw-driven-sequences', len(seqs) * 4)
+    return v
+
 def run_c19(ctx):
     ctx.rule = ('Box<RawValue> and IgnoredAny over the exhaustive 4-token space, generated documents with every whitespace placement, and their mutations, slice and '
                 '1-byte reader; captured span and accept/reject compared with the model (proved: exactly the source text of one value; scanner = RFC 8259 grammar minus '
@@ -1030,6 +1056,7 @@ def run_c19(ctx):
         ctx.violations += judge_c19_from_string(ctx, cfg, ws_docs)
         rd = list(raw_docs(ctx, 1500 if ctx.tier == 'quick' else 15000)) + ws_docs + list(itertools.islice(gen.enum_tokens(3), 0, None, 3))
         ctx.violations += judge_c19_raw(ctx, cfg, rd)
+        ctx.violations += judge_c19_driven(ctx, cfg, rd)
 
 PARSER_TB = ['modelled, not verified: std::io::Bytes (one-byte reads, Interrupted retried), memchr, str::from_utf8, BTreeMap/IndexMap insert, rustc float literal parsing (POW10), IEEE arithmetic of f64 (Flocq model)',
              'the three readers are abstracted to one cursor (rest, off, peeked) — tied by running str/slice/reader sources with chunk schedules']
